@@ -479,7 +479,7 @@ func (h *httpServerHandler) handlePostResponse(ctx context.Context, w http.Respo
 	} else {
 		// Invalid response - neither error nor result.
 		h.logger.Errorf("Invalid JSON-RPC response: missing both result and error for ID: %v", response.ID)
-		h.sendNotificationResponse(w, session)
+		http.Error(w, "Invalid JSON-RPC message", http.StatusBadRequest)
 		return
 	}
 
